@@ -79,6 +79,14 @@ Block(ty) == <<T("{"), Sym("MARK", "", 0), EX(ty), Sym("POPMARK", "", 0), T("}")
 Args(k) == IF Len(sigs[k].ps) = 0 THEN <<>>
            ELSE IF Len(sigs[k].ps) = 1 THEN <<EX(sigs[k].ps[1])>>
            ELSE <<EX(sigs[k].ps[1]), T(","), EX(sigs[k].ps[2])>>
+\* Signature help (beyond the listed properties): with the cursor right after the `(` of a call, or right after the
+\* n-th comma of its argument list, the editor shows the callee's type `(P1, P2) -> R` and marks parameter n (0-based)
+\* as active.  CALLOPEN / ARGSEP are the `(` and `,` tokens of such a call, tagged with what must be shown there.
+CallSig(ps, ret) == "(" \o (IF Len(ps) = 0 THEN "" ELSE IF Len(ps) = 1 THEN ps[1] ELSE ps[1] \o ", " \o ps[2]) \o ") -> " \o ret
+CallTo(name, ps, ret) ==
+    <<T(name), Sym("CALLOPEN", CallSig(ps, ret), 0)>>
+    \o (IF Len(ps) = 0 THEN <<>> ELSE IF Len(ps) = 1 THEN <<EX(ps[1])>> ELSE <<EX(ps[1]), Sym("ARGSEP", CallSig(ps, ret), 1), EX(ps[2])>>)
+    \o <<T(")")>>
 
 Prods(h) ==
   IF h.s \in {"EXPR", "EXPRP"} THEN
@@ -92,7 +100,7 @@ Prods(h) ==
                           T("_"), T("->"), EX(ty), T("}")>>) : s \in Pick(D1 \ Funs) }
     \cup { P(1, "id_call", <<T("id"), T("("), EX(ty), T(")")>>), P(1, "wrap_call", <<T("wrap"), T("("), EX(ty), T(")")>>) }
     \* calls to generated functions: to earlier ones (acyclic), and to itself / later ones (recursion groups)
-    \cup { P(1, "call_gen_back", <<T("g" \o ToString(k)), T("(")>> \o Args(k) \o <<T(")")>>) : k \in {j \in FunsReturning(ty) : j < cur} }
+    \cup { P(1, "call_gen_back", CallTo("g" \o ToString(k), sigs[k].ps, sigs[k].ret)) : k \in {j \in FunsReturning(ty) : j < cur} }
     \cup { P(1, "call_gen_rec", <<T("g" \o ToString(k)), T("(")>> \o Args(k) \o <<T(")")>>) : k \in {j \in FunsReturning(ty) : j >= cur} }
     \cup (IF ty \in D0 THEN
             { P(1, "tuple_index0", <<GR(Tu(ty, s)), T("."), T("0")>>) : s \in Pick(D0) }
@@ -106,7 +114,7 @@ Prods(h) ==
           ELSE {}))
     \* rules by goal type
     \cup (CASE ty = "Int" -> { P(0, "int", <<T("1")>>), P(1, "add", <<GR("Int"), T("+"), GR("Int")>>), P(1, "field_a", <<GR("T"), T("."), T("a")>>),
-                                P(1, "add_fn", <<T("add"), T("("), EX("Int"), T(","), EX("Int"), T(")")>>),
+                                P(1, "add_fn", CallTo("add", <<"Int", "Int">>, "Int")),
                                 P(1, "pipe_add", <<GR("Int"), T("|>"), T("add"), T("("), EX("Int"), T(")")>>) }
             [] ty = "Float" -> { P(0, "float", <<T("1.5")>>), P(1, "fmul", <<GR("Float"), T("*."), GR("Float")>>) }
             [] ty = "String" -> { P(0, "string", <<T("\"s\"")>>), P(1, "concat", <<GR("String"), T("<>"), GR("String")>>), P(1, "field_b", <<GR("T"), T("."), T("b")>>),
@@ -191,6 +199,8 @@ Step ==
   /\ phase = "body" /\ todo # <<>>
   /\ LET h == todo[1]  rest == Tail(todo) IN
      CASE h.s = "T" -> /\ out' = Append(out, Tok(h.x, "tok", "")) /\ todo' = rest /\ UNCHANGED <<env, budget, nv, cur>>
+       [] h.s = "CALLOPEN" -> /\ out' = Append(out, Tok("(", "callopen", h.x)) /\ todo' = rest /\ UNCHANGED <<env, budget, nv, cur>>
+       [] h.s = "ARGSEP" -> /\ out' = Append(out, Tok(",", "argsep" \o ToString(h.n), h.x)) /\ todo' = rest /\ UNCHANGED <<env, budget, nv, cur>>
        [] h.s = "TY" -> /\ out' = Append(out, Tok(h.x, "type", "")) /\ todo' = rest /\ UNCHANGED <<env, budget, nv, cur>>
        [] h.s = "FUN" ->
             \* fn gk(p1: s1, p2: s2) { body }  - the first parameter unannotated but pinned by a use when sigs[k].pin
